@@ -145,6 +145,7 @@ LAMS = {
     # two arguments
     'add2': Lam('$1 + $2', lambda e: (lambda a, b: a + b), ints=True),
     'gt2': Lam('$1 > $2', lambda e: (lambda a, b: lt_null(b, a))),
+    'ge2': Lam('$1 >= $2', lambda e: (lambda a, b: not lt_null(a, b))),
     'eq2': Lam('$1 = $2', lambda e: (lambda a, b: same_scalar(a, b))),
     'pair2': Lam('[$1, $2]', lambda e: (lambda a, b: (a, b))),
     'snd2': Lam('$2', lambda e: (lambda a, b: b)),
@@ -893,6 +894,59 @@ case('generateMany.decycle', 'generateMany/generate_many',
 case('defaultIfEmpty', 'defaultIfEmpty/default_if_empty', lambda e: T(e) if e.n else U(e),
      api=lambda e, P, name: M(name, P(e.t), P(e.u)), text='$c.defaultIfEmpty($d)', uses='c d')
 
+# the same memorized value used twice in one expression: two live, interleaved iterations over one memorized collection
+# must not share a cursor (for the tuple presentation memorize() returns the list itself: the contrast case)
+def _memo(e, P, name):
+    return M(name, P(e.t))
+
+
+def a_memo_zip(e, P, name):
+    mm = _memo(e, P, name)
+    return M('zip', mm, mm)
+
+
+def a_memo_join(e, P, name):
+    mm = _memo(e, P, name)
+    return M('join', mm, mm, e.B, e.C)
+
+
+def a_memo_nested(e, P, name):
+    mm = _memo(e, P, name)
+    return M('select', mm, lambda x: (x, M('count', mm)))
+
+
+def a_memo_select_many(e, P, name):
+    mm = _memo(e, P, name)
+    return M('selectMany', mm, lambda x: mm)
+
+
+def a_memo_where_in(e, P, name):
+    mm = _memo(e, P, name)
+    return M('where', mm, lambda x: F('#operator_in', x, mm))
+
+
+case('memorize.zip', 'memorize/memorize', lambda e: [[x, x] for x in e.t], api=a_memo_zip,
+     text='let(mm => $c.memorize()) -> $mm.zip($mm)', uses='c')
+case('memorize.join', 'memorize/memorize', lambda e: [e.C(x, y) for x in e.t for y in e.t if e.B(x, y)],
+     api=a_memo_join, text='let(mm => $c.memorize()) -> $mm.join($mm, {B}, {C})', uses='c',
+     lams={'B': ['ge2', 'eq2'], 'C': ['pair2']}, cost=2)
+case('memorize.nested', 'memorize/memorize', lambda e: [[x, e.n] for x in e.t], api=a_memo_nested,
+     text='let(mm => $c.memorize()) -> $mm.select([$, $mm.count()])', uses='c')
+case('memorize.selectMany', 'memorize/memorize', lambda e: [y for x in e.t for y in e.t], api=a_memo_select_many,
+     text='let(mm => $c.memorize()) -> $mm.selectMany($mm)', uses='c')
+case('memorize.where.in', 'memorize/memorize', lambda e: T(e), api=a_memo_where_in,
+     text='let(mm => $c.memorize()) -> $mm.where($ in $mm)', uses='c')
+
+
+def a_default_zip(e, P, name):
+    mm = M(name, P(e.t), tuple(e.u))      # the default is a list: only the receiver is one-shot
+    return M('zip', mm, mm)
+
+
+case('defaultIfEmpty.zip', 'defaultIfEmpty/default_if_empty',
+     lambda e: [[x, x] for x in (e.t if e.n else e.u)], api=a_default_zip,
+     text='let(mm => $c.defaultIfEmpty($dt)) -> $mm.zip($mm)', uses='c d', pres=('tuple', 'iter'))
+
 # --- collections -----------------------------------------------------------------------------------------------
 case('list.scalars', 'list/list_', lambda e: [e.v, e.i],
      api=lambda e, P, name: F(name, e.v, e.i), text='list($v, $i)', uses='v i', pres=('tuple',))
@@ -1112,6 +1166,8 @@ def bind(c, e, P, text):
             out['c2'] = P(e.t)
         elif name == 'd':
             out['d'] = P(e.u)
+        elif name == 'dt':
+            out['dt'] = tuple(e.u)
         elif name in ('i', 'j', 'k', 'r', 'v'):
             out[name] = getattr(e, name)
         elif name == 'cd':
